@@ -254,6 +254,7 @@ func init() {
 			funcOfArity(c, "callable.go")
 			noRecover(c, "callable.go")
 			callerSlicesReadOnly(c, "callable.go")
+			everyArgumentValidated(c)
 			resultsStored(c)
 			c.errPolarity("Call")
 			out := c.sel(func(o *an.Oblig) bool { return isUndecided(o) || o.Rule == "ANCHOR" })
@@ -1041,6 +1042,71 @@ func callerSlicesReadOnly(c *Ctx, inFile string) {
 		return
 	}
 	q.add("WR", "the caller's argument and target slices are only read", len(bad) == 0, pickS(len(bad) == 0, "no element store, copy or clear into a slice that was received or captured", "an element of a slice the caller passed in (or the option captured) is overwritten: the option value and the caller's slice are changed by a Call"), bad...)
+}
+
+// everyArgumentValidated: in resolveArgs every argument position is judged - by AssignableTo, or by typeNilable for an
+// untyped nil - before the loop moves on: no way round the validation loop avoids both (a "same as the previous
+// argument" shortcut skips the check against *this* position's parameter type).
+func everyArgumentValidated(c *Ctx) {
+	q := c.F("resolveArgs")
+	if !q.ok() {
+		return
+	}
+	P := c.P
+	fn := q.fn
+	var vals []ssa.Instruction
+	for _, in := range an.AllInstrs(fn, func(in ssa.Instruction) bool {
+		cc := an.CallCommonOf(in)
+		if cc == nil || !P.InCycle(in) {
+			return false
+		}
+		if cc.IsInvoke() && cc.Method.Name() == "AssignableTo" {
+			return true
+		}
+		return P.CalleeName(cc) == "typeNilable"
+	}) {
+		vals = append(vals, in)
+	}
+	if !q.need(vals, "PATH", "validation of an argument position") {
+		return
+	}
+	// the loop that validates: the innermost header (a block with an If that has one successor leaving the cycle) which
+	// dominates every validation call
+	bad := false
+	found := false
+	for _, b := range fn.Blocks {
+		ifi, isIf := b.Instrs[len(b.Instrs)-1].(*ssa.If)
+		if !isIf || !P.InCycle(ifi) {
+			continue
+		}
+		dom := true
+		for _, v := range vals {
+			if !b.Dominates(v.Block()) {
+				dom = false
+			}
+		}
+		if !dom {
+			continue
+		}
+		exit := -1
+		for i, sc := range b.Succs {
+			if len(sc.Instrs) > 0 && !P.InCycle(sc.Instrs[0]) {
+				exit = i
+			}
+		}
+		if exit < 0 {
+			continue
+		}
+		found = true
+		if P.PathExists(fn, ifi, an.Is(ifi), an.In(vals), cutEdge(ifi, exit)) {
+			bad = true
+		}
+	}
+	if !found {
+		q.undecided("PATH", "every argument position is validated", "the validation loop of resolveArgs was not recognised")
+		return
+	}
+	q.add("PATH", "every argument position is validated", !bad, pickS(!bad, "every trip round the validation loop passes AssignableTo or typeNilable", "an argument position can be accepted without being checked against its parameter type: reflect would panic inside the thunk, or a nil would reach a non-nilable parameter"), vals...)
 }
 
 func noRecover(c *Ctx, inFile string) {
